@@ -370,13 +370,35 @@ struct StateView {
     ext: Vec<(usize, u128)>,
     ver: Vec<usize>,
     inv: Vec<usize>,
+    /// the answer of `Shared::get_block_status` per declared id (ascending ids), one letter each:
+    /// U UNKNOWN, H HEADER_VALID, R BLOCK_RECEIVED, S BLOCK_STORED, V BLOCK_VALID, I BLOCK_INVALID;
+    /// on a stopped database: what a fresh process answers (from the persisted ext alone)
+    st: String,
+}
+
+fn status_letter(s: BlockStatus) -> char {
+    if s == BlockStatus::UNKNOWN {
+        'U'
+    } else if s == BlockStatus::HEADER_VALID {
+        'H'
+    } else if s == BlockStatus::BLOCK_RECEIVED {
+        'R'
+    } else if s == BlockStatus::BLOCK_STORED {
+        'S'
+    } else if s == BlockStatus::BLOCK_VALID {
+        'V'
+    } else if s == BlockStatus::BLOCK_INVALID {
+        'I'
+    } else {
+        '?'
+    }
 }
 
 fn state_line(cbs: &[(usize, Verdict)], v: &StateView) -> String {
     let cb = if cbs.is_empty() { "-".to_string() } else { cbs.iter().map(|(i, v)| format!("{}:{}", i, v.as_str())).collect::<Vec<_>>().join(",") };
     let ext = if v.ext.is_empty() { "-".to_string() } else { v.ext.iter().map(|(i, t)| format!("{i}:{t}")).collect::<Vec<_>>().join(",") };
     format!(
-        "cb={} tip={} td={} orph={} stored={} ext={} ver={} inv={}",
+        "cb={} tip={} td={} orph={} stored={} ext={} ver={} inv={} st={}",
         cb,
         v.tip.map(|t| t.to_string()).unwrap_or("?".into()),
         v.td,
@@ -384,7 +406,8 @@ fn state_line(cbs: &[(usize, Verdict)], v: &StateView) -> String {
         show_ids(&v.stored),
         ext,
         show_ids(&v.ver),
-        show_ids(&v.inv)
+        show_ids(&v.inv),
+        v.st
     )
 }
 
@@ -585,9 +608,10 @@ impl CaseRun {
         let td = u256_u128(snap.total_difficulty());
         let mut ids: Vec<usize> = self.blks.iter().map(|b| b.id).collect();
         ids.sort();
-        let mut v = StateView { tip, td, orph: node.controller().orphan_blocks_len(), stored: vec![], ext: vec![], ver: vec![], inv: vec![] };
+        let mut v = StateView { tip, td, orph: node.controller().orphan_blocks_len(), stored: vec![], ext: vec![], ver: vec![], inv: vec![], st: String::new() };
         for id in ids {
             let b = self.get(id);
+            v.st.push(status_letter(node.shared.get_block_status(&b.hash)));
             if node.store().get(COLUMN_BLOCK_HEADER, b.hash.as_slice()).is_some() {
                 v.stored.push(id);
             }
@@ -1087,12 +1111,18 @@ impl CaseRun {
         let td = db.get_block_ext(&tip_hash).map(|e| u256_u128(&e.total_difficulty)).unwrap_or(0);
         let mut ids: Vec<usize> = self.blks.iter().map(|b| b.id).collect();
         ids.sort();
-        let mut v = StateView { tip, td, orph: 0, stored: vec![], ext: vec![], ver: vec![], inv: vec![] };
+        let mut v = StateView { tip, td, orph: 0, stored: vec![], ext: vec![], ver: vec![], inv: vec![], st: String::new() };
         for id in ids {
             let b = self.get(id);
             if db.get(COLUMN_BLOCK_HEADER, b.hash.as_slice()).is_some() {
                 v.stored.push(id);
             }
+            v.st.push(match db.get_block_ext(&b.hash).map(|e| e.verified) {
+                None => 'U',
+                Some(None) => 'S',
+                Some(Some(true)) => 'V',
+                Some(Some(false)) => 'I',
+            });
             if let Some(ext) = db.get_block_ext(&b.hash) {
                 v.ext.push((id, u256_u128(&ext.total_difficulty)));
                 match ext.verified {
@@ -1389,6 +1419,7 @@ impl CaseRun {
             "uneven" => out.count("uneven-case"),
             "expiry" => out.count("expiry-case"),
             "restart" => out.count("restart-case"),
+            "content" => out.count("content-case"),
             _ => {}
         }
         if self.restarts > 0 && self.had_reorg {
@@ -1441,6 +1472,19 @@ fn header_stored(node: &Node, h: &Byte32) -> bool {
 
 fn selftest(base: &Path) {
     assert_eq!(u256_dec(&U256::from(1234u64)), "1234", "U256 Display is not decimal");
+    // `BlockStatus` bit patterns and containment as Model/ChainStatus.lean defines them
+    {
+        let all = [BlockStatus::UNKNOWN, BlockStatus::HEADER_VALID, BlockStatus::BLOCK_RECEIVED, BlockStatus::BLOCK_STORED, BlockStatus::BLOCK_VALID, BlockStatus::BLOCK_INVALID];
+        let bits: Vec<u32> = all.iter().map(|s| s.bits()).collect();
+        assert_eq!(bits, vec![0, 1, 3, 7, 15, 1 << 12], "BlockStatus bit patterns changed: Model/ChainStatus.lean assumes the shift-or chain 1,3,7,15 and the generated BLOCK_INVALID bit");
+        for (i, a) in all.iter().enumerate() {
+            for (j, b) in all.iter().enumerate() {
+                // chain UNKNOWN < HEADER_VALID < RECEIVED < STORED < VALID; INVALID contains only UNKNOWN and itself
+                let want = if i == 5 || j == 5 { i == j || j == 0 } else { j <= i };
+                assert_eq!(a.contains(*b), want, "BlockStatus::contains({a:?}, {b:?})");
+            }
+        }
+    }
     assert_eq!(ckb_chain::VERIF_ORPHAN_EXPIRED_EPOCH, 6, "the orphan retention horizon EXPIRED_EPOCH changed: the model's generated constant and this oracle assume 6");
     let cfg = NodeCfg { epoch_len: 4, with_pool: false, ..Default::default() };
     let consensus = make_consensus(&cfg);
@@ -1729,6 +1773,24 @@ fn generate(out: &mut Out, opts: &Opts, builder_base: &Path, node_base: &Path) {
         }
     }
     let t_restart = t0.elapsed() - t_gen - t_uneven - t_expiry;
+    // ---- family "content": uncles and two-phase-commit transactions across A -> B -> A' -> B' switches
+    let (ctrees, corders) = if opts.thorough() { (12 * opts.scale, 6) } else { (3 * opts.scale, 4) };
+    let ctrees = if only_restart { 0 } else { ctrees };
+    for tno in 0..ctrees {
+        let cs = rng.next() % 1_000_000;
+        let tb = Instant::now();
+        let tree = gen_content_tree(cs, &builder_base.join(format!("k{tno}")));
+        t_build += tb.elapsed();
+        for ono in 0..corders {
+            let (ops, mode) = content_ops(&mut rng, &tree);
+            let threads = rng.range(1, 3) as usize;
+            let label = format!("{} mode={} thr={} fam=content cs={} tree={} ord={} n={}", tree.chain.label(), mode, threads, cs, tno, ono, tree.blks.len() - 1);
+            run_case(out, node_base, &label, &tree.chain, threads, "content", &tree.blks, &ops);
+            cases += 1;
+        }
+    }
+    let t_content = t0.elapsed() - t_gen - t_uneven - t_expiry - t_restart;
+    eprintln!("C01: content {:.1}s", t_content.as_secs_f64());
     eprintln!("C01: general {:.1}s, uneven {:.1}s, expiry {:.1}s, restart {:.1}s", t_gen.as_secs_f64(), t_uneven.as_secs_f64(), t_expiry.as_secs_f64(), t_restart.as_secs_f64());
     eprintln!(
         "C01: {} cases in {:.1}s (building blocks {:.1}s, node start {:.1}s, deliveries {:.1}s, node stop {:.1}s)",
@@ -2292,6 +2354,192 @@ fn restart_ops(rng: &mut Rng, t: &RestartTree) -> (Vec<Op>, bool) {
 // replay
 // ------------------------------------------------------------------------------------------------
 
+
+// ---- family "content" -----------------------------------------------------------------------------
+
+/// Blocks whose validity depends on what the chain they sit on has ALREADY embedded / spent, under
+/// repeated switches between two branches (A -> B -> A' -> B'): uncles (the uncle index of a detached
+/// block must be forgotten, that of a re-attached block restored) and transactions with the two-phase
+/// commit (the live-cell set of a detached block must be rolled back, that of a re-attached, already
+/// verified block re-applied). The tree is a deterministic function of the content seed `cs` (in the
+/// case label), so a replay rebuilds the same blocks.
+///
+///   prefix P1..Pk (k = 1..2) on genesis; uncle u = a sibling of Pk (a valid block, never delivered)
+///   A1 [proposes tx1 tx2 tx1x tg tg2] A2 A3 [commits tx1 tg]           tx1: spends genesis cell g0
+///   B1 [proposes tx1b tx2b tg] B2 B3 [commits tx1b] B4 [commits tg]  tx1b: spends g0 too (valid on B)
+///   A4 A5 [commits tx2: spends an output of tx1; tg2]  -> A is heavier again
+///      A5x (sibling of A5) [commits tx1x: spends g0 again]           INVALID (double spend in the chain)
+///      A5u (sibling of A5) [embeds u]                                INVALID iff A already embedded u
+///   B5 B6 [commits tx2b: spends an output of tx1b]  -> B is heavier again
+///      B6u (sibling of B6) [embeds u]                                INVALID iff B already embedded u
+///      B6p (sibling of B6) [commits tg2, proposed on A only]         INVALID (not proposed on its chain)
+/// `ua` / `ub`: which block of A / B (if any) embeds u.
+struct ContentTree {
+    chain: Chain,
+    blks: Vec<Blk>,
+    k: usize,
+    /// ids: prefix, A1..A3, B1..B4, A4 A5 A5x A5u, B5 B6 B6u
+    pre: Vec<usize>,
+    a1: Vec<usize>,
+    b1: Vec<usize>,
+    a2: Vec<usize>,
+    b2: Vec<usize>,
+}
+
+fn content_block(b: &mut ChainBuilder, id: usize, parent: &Blk, kind: Kind, detached: bool, txs: Vec<TransactionView>, proposals: Vec<ckb_types::packed::ProposalShortId>, uncles: Vec<ckb_types::core::UncleBlockView>) -> Blk {
+    let ts = block_ts(parent, id, false);
+    // `Tweak::Timestamp` with the timestamp the builder would take anyway: the block is byte-identical
+    // to the untweaked one but is not attached to the builder's branch store (leaves, invalid blocks)
+    let tweak = if detached { Tweak::Timestamp(ts) } else { Tweak::None };
+    let block = b.build(&parent.hash, &BlockSpec { txs, proposals, uncles, salt: id as u64, tweak, timestamp: Some(ts) });
+    Blk { id, parent: parent.id, hash: block.hash(), num: block.number(), epoch: block.epoch().number(), work: u256_u128(&block.header().difficulty()), kind, block: Arc::new(block) }
+}
+
+fn gen_content_tree(cs: u64, bdir: &Path) -> ContentTree {
+    let mut rng = Rng::new(cs ^ 0x5eed_c01c_0de5);
+    let chain = Chain::Flat { el: 60 };
+    let consensus = chain.consensus();
+    let mut b = ChainBuilder::new(consensus.clone(), bdir);
+    b.max_branch_stores = 8;
+    let k = rng.range(1, 2) as usize;
+    // 0 = nobody, 1 / 2 = the first / second block of the branch's first phase
+    let ua = if rng.chance(3, 4) { rng.range(1, 2) as usize } else { 0 };
+    let ub = if rng.chance(3, 4) { rng.range(2, 3) as usize } else { 0 };
+    let g = genesis_cells(&consensus);
+    let out_of = |tx: &TransactionView, i: usize| -> (OutPoint, u64) {
+        let c: Capacity = tx.outputs().get(i).unwrap().capacity().unpack();
+        (OutPoint::new(tx.hash(), i as u32), c.as_u64())
+    };
+    let tx1 = spend_tx(&[g[0].clone()], 2, 1000, 1);
+    let tx1x = spend_tx(&[g[0].clone()], 1, 2000, 2);
+    let tx2 = spend_tx(&[out_of(&tx1, rng.below(2) as usize)], 1, 1000, 3);
+    let tx1b = spend_tx(&[g[0].clone()], 2, 1500, 4);
+    let tx2b = spend_tx(&[out_of(&tx1b, rng.below(2) as usize)], 1, 1000, 5);
+    let tg = spend_tx(&[g[1].clone()], 1, 1000, 6);
+    // proposed on branch A only
+    let tg2 = spend_tx(&[g[2].clone()], 1, 1000, 7);
+    let pid = |tx: &TransactionView| tx.proposal_short_id();
+    let mut blks = vec![genesis_blk(&consensus)];
+    let mut id = 0usize;
+    let push = |blks: &mut Vec<Blk>, blk: Blk| -> usize {
+        blks.push(blk);
+        blks.len() - 1
+    };
+    // prefix
+    let mut pre = vec![];
+    for _ in 0..k {
+        id += 1;
+        let p = blks[id - 1].clone();
+        let blk = content_block(&mut b, id, &p, Kind::Valid, false, vec![], vec![], vec![]);
+        pre.push(push(&mut blks, blk));
+    }
+    // the uncle: a sibling of Pk (child of P(k-1)); a valid block of its own, never declared
+    let up = blks[k - 1].clone();
+    let u = build_detached(&mut b, &up, 9001, block_ts(&up, 9001, false)).as_uncle();
+    let fork = blks[k].clone();
+    let unc = |on: bool| if on { vec![u.clone()] } else { vec![] };
+    // A1..A3
+    let mut a1 = vec![];
+    let mut p = fork.clone();
+    for i in 1..=3usize {
+        id += 1;
+        let props = if i == 1 { vec![pid(&tx1), pid(&tx2), pid(&tx1x), pid(&tg), pid(&tg2)] } else { vec![] };
+        let txs = if i == 3 { vec![tx1.clone(), tg.clone()] } else { vec![] };
+        let blk = content_block(&mut b, id, &p, Kind::Valid, false, txs, props, unc(ua == i));
+        p = blk.clone();
+        a1.push(push(&mut blks, blk));
+    }
+    let a3 = p.clone();
+    // B1..B4
+    let mut b1 = vec![];
+    let mut p = fork.clone();
+    for i in 1..=4usize {
+        id += 1;
+        let props = if i == 1 { vec![pid(&tx1b), pid(&tx2b), pid(&tg)] } else { vec![] };
+        let txs = match i {
+            3 => vec![tx1b.clone()],
+            4 => vec![tg.clone()],
+            _ => vec![],
+        };
+        let blk = content_block(&mut b, id, &p, Kind::Valid, false, txs, props, unc(ub == i));
+        p = blk.clone();
+        b1.push(push(&mut blks, blk));
+    }
+    let b4 = p.clone();
+    // A4, A5, A5x, A5u
+    let mut a2 = vec![];
+    id += 1;
+    let a4 = content_block(&mut b, id, &a3, Kind::Valid, false, vec![], vec![], vec![]);
+    a2.push(push(&mut blks, a4.clone()));
+    id += 1;
+    let blk = content_block(&mut b, id, &a4, Kind::Valid, true, vec![tx2.clone(), tg2.clone()], vec![], vec![]);
+    a2.push(push(&mut blks, blk));
+    id += 1;
+    let blk = content_block(&mut b, id, &a4, Kind::Ctx, true, vec![tx1x.clone()], vec![], vec![]);
+    a2.push(push(&mut blks, blk));
+    id += 1;
+    let blk = content_block(&mut b, id, &a4, if ua != 0 { Kind::Ctx } else { Kind::Valid }, true, vec![], vec![], unc(true));
+    a2.push(push(&mut blks, blk));
+    // B5, B6, B6u
+    let mut b2 = vec![];
+    id += 1;
+    let b5 = content_block(&mut b, id, &b4, Kind::Valid, false, vec![], vec![], vec![]);
+    b2.push(push(&mut blks, b5.clone()));
+    id += 1;
+    let blk = content_block(&mut b, id, &b5, Kind::Valid, true, vec![tx2b.clone()], vec![], vec![]);
+    b2.push(push(&mut blks, blk));
+    id += 1;
+    let blk = content_block(&mut b, id, &b5, if ub != 0 { Kind::Ctx } else { Kind::Valid }, true, vec![], vec![], unc(true));
+    b2.push(push(&mut blks, blk));
+    // B6p: commits a transaction that was proposed on branch A only (two-phase commit violated on B)
+    id += 1;
+    let blk = content_block(&mut b, id, &b5, Kind::Ctx, true, vec![tg2.clone()], vec![], vec![]);
+    b2.push(push(&mut blks, blk));
+    drop(b);
+    let _ = std::fs::remove_dir_all(bdir);
+    ContentTree { chain, blks, k, pre, a1, b1, a2, b2 }
+}
+
+/// arrival orders of family `content`; returns (ops, mode name)
+fn content_ops(rng: &mut Rng, t: &ContentTree) -> (Vec<Op>, &'static str) {
+    let mut tail_a = t.a2.clone();
+    // A4 first, its three children in any order
+    rng.shuffle(&mut tail_a[1..]);
+    let mut tail_b = t.b2.clone();
+    rng.shuffle(&mut tail_b[1..]);
+    let cat = |parts: &[&[usize]]| -> Vec<usize> { parts.iter().flat_map(|p| p.iter().copied()).collect() };
+    match rng.below(5) {
+        0 => (cat(&[&t.pre, &t.a1, &t.b1, &tail_a, &tail_b]).into_iter().map(Op::Deliver).collect(), "a-b-a-b"),
+        1 => (cat(&[&t.pre, &t.b1, &t.a1, &tail_a, &tail_b]).into_iter().map(Op::Deliver).collect(), "b-a-a-b"),
+        2 => {
+            // every branch in its own order, merged at random, with duplicates
+            let a = cat(&[&t.a1, &tail_a]);
+            let bb = cat(&[&t.b1, &tail_b]);
+            let mut o = t.pre.clone();
+            o.extend(merge_keep_order(rng, &a, &bb));
+            add_dups(rng, &mut o, 10, 30);
+            (o.into_iter().map(Op::Deliver).collect(), "merge")
+        }
+        3 => {
+            // any order at all (orphans), serialised
+            let mut o = cat(&[&t.pre, &t.a1, &t.b1, &tail_a, &tail_b]);
+            rng.shuffle(&mut o);
+            (o.into_iter().map(Op::Deliver).collect(), "shuffle")
+        }
+        _ => {
+            // the switches happen inside bursts
+            let first = cat(&[&t.pre, &t.a1]);
+            let mut rest = merge_keep_order(rng, &cat(&[&t.b1, &tail_b]), &tail_a);
+            if rng.chance(1, 2) {
+                rng.shuffle(&mut rest);
+            }
+            let mut ops: Vec<Op> = first.into_iter().map(Op::Deliver).collect();
+            ops.push(Op::Burst(rest));
+            (ops, "burst")
+        }
+    }
+}
+
 fn label_num(tokens: &[&str], key: &str, default: u64) -> u64 {
     tokens.iter().find_map(|t| t.strip_prefix(key).and_then(|v| v.parse::<u64>().ok())).unwrap_or(default)
 }
@@ -2304,6 +2552,8 @@ fn parse_ids(s: &str) -> Vec<usize> {
 }
 
 struct ReplayCase {
+    /// family `content`: the whole tree, rebuilt from the label's `cs=`
+    content: Option<Vec<Blk>>,
     run: CaseRun,
     /// ids built with a slow timestamp (label `slow=<ids>`)
     slow: HashSet<usize>,
@@ -2354,6 +2604,8 @@ fn replay(out: &mut Out, ops: &[String], builder_base: &Path, node_base: &Path) 
                     "expiry"
                 } else if t[2..].contains(&"fam=restart") {
                     "restart"
+                } else if t[2..].contains(&"fam=content") {
+                    "content"
                 } else {
                     "gen"
                 };
@@ -2363,9 +2615,10 @@ fn replay(out: &mut Out, ops: &[String], builder_base: &Path, node_base: &Path) 
                 let bdir = builder_base.join(format!("r{cno}"));
                 let mut builder = ChainBuilder::new(consensus.clone(), &bdir);
                 builder.max_branch_stores = 12;
+                let content = if family == "content" { Some(gen_content_tree(label_num(&t[2..], "cs=", 0), &builder_base.join(format!("rk{cno}"))).blks) } else { None };
                 let mut run = CaseRun::start(&node_base.join(format!("r{cno}")), &consensus, &cfg, thr);
                 run.family = family;
-                cur = Some(ReplayCase { run, slow, parents, builder, bdir });
+                cur = Some(ReplayCase { content, run, slow, parents, builder, bdir });
             }
             "blk" => {
                 let rc = cur.as_mut().expect("blk before case");
@@ -2374,7 +2627,11 @@ fn replay(out: &mut Out, ops: &[String], builder_base: &Path, node_base: &Path) 
                 let parent: usize = t[2].parse().expect("blk parent");
                 let nc = t[6] == "1";
                 let ok = t[7] == "1";
-                let b = if id == 0 {
+                let b = if let Some(tree) = &rc.content {
+                    let b = tree.get(id).unwrap_or_else(|| panic!("blk {id}: the content tree has {} blocks", tree.len())).clone();
+                    assert!(b.parent == parent && b.kind.nc() == nc && (b.kind.ok() == ok || !nc), "blk {id}: the line does not describe block {id} of the content tree");
+                    b
+                } else if id == 0 {
                     genesis_blk(&rc.builder.consensus)
                 } else {
                     assert!(parent < id && rc.run.by_id.contains_key(&parent), "blk {id}: parent {parent} must be declared before and be smaller");
